@@ -156,6 +156,53 @@ static void exec_c09(const Plan& p, Outcome& out) {
         if (!ref.ok || !model::equal_struct(ref.v, want)) violate("model", "SerializeStr:roundtrip", "array of strings does not read back: " + model::printable(got, 200));
         for (auto& b : bufs) b.free();
         h = mix64(h ^ fnv1a(got.data(), got.size()));
+      } else if (op.kind == "SerializeFit") {
+        // growth boundaries of the write buffer at every scale, without the tight-growth hook: the buffer starts with capacity
+        // cap0, is filled to a fraction of it by plain strings, then one string of control bytes (6 output bytes each, so the
+        // 6n+35 reservation is really used) whose reservation ends within +-48 bytes of cap, 1.5*cap or 2*cap
+        static const size_t scales[] = {64, 256, 1000, 4096, 65536, 300000, 1u << 20, (1u << 20) + 4096, 2621440, 5u << 20};
+        size_t cap0 = scales[(size_t)op.A(0) % 10] + (size_t)(op.A(4) % 17);
+        static const int fills[] = {0, 50, 90};
+        int fill = fills[(size_t)op.A(1) % 3];
+        int boundary = (int)((size_t)op.A(2) % 3);   // 0: cap, 1: 1.5 cap, 2: 2 cap
+        long delta = (long)(op.A(3) % 97) - 48;
+        DSim d; d.SetArray();
+        std::vector<CBuf> bufs; JVal want = JVal::arr();
+        size_t sz = 1;   // '['
+        std::string plain(cap0 >= 8000 ? 1000 : cap0 / 12 + 1, 'a');
+        while (fill && sz + plain.size() + 3 + 6 * plain.size() + 35 < cap0 && sz < cap0 * (size_t)fill / 100) {
+          CBuf b(plain, simmem::PL_END); bufs.push_back(b);
+          NSim nd; nd.SetString(b.data, plain.size()); d.PushBack(std::move(nd), d.GetAllocator());
+          want.a.push_back(JVal::str(plain)); sz += plain.size() + 3;
+        }
+        size_t B = boundary == 0 ? cap0 : boundary == 1 ? cap0 + cap0 / 2 : 2 * cap0;
+        long L = ((long)B + delta - (long)sz - 35) / 6;
+        if (L > 0) {
+          std::string ctl((size_t)L, '\x01');
+          for (size_t q = 0; q < ctl.size(); q += 7) ctl[q] = (char)(1 + (q / 7) % 7);   // \u0001..\u0007: six bytes each
+          CBuf b(ctl, simmem::PL_END); bufs.push_back(b);
+          NSim nd; nd.SetString(b.data, ctl.size()); d.PushBack(std::move(nd), d.GetAllocator());
+          want.a.push_back(JVal::str(ctl));
+        }
+        out.detail = "cap0=" + std::to_string(cap0) + " fill=" + std::to_string(fill) + "% boundary=" + (boundary == 0 ? "cap" : boundary == 1 ? "1.5cap" : "2cap") + " delta=" + std::to_string(delta) + " control_bytes=" + std::to_string(L > 0 ? L : 0);
+        WriteBuffer wb(cap0);
+        SonicError e = d.Serialize(wb);
+        if (e != kErrorNone) violate("model", "SerializeFit:error", "serialising strings failed");
+        std::string got(wb.ToString(), wb.Size());
+        std::string exp = "[";   // reference bytes, written directly (the generic reference writer is slow on megabytes of escapes)
+        for (size_t q = 0; q < want.a.size(); q++) {
+          if (q) exp += ',';
+          const std::string& str = want.a[q].s;
+          exp += '"';
+          if (!str.empty() && str[0] == 'a') exp += str;
+          else for (char ch : str) { exp += "\\u000"; exp += (char)('0' + ch); }
+          exp += '"';
+        }
+        exp += ']';
+        if (got != exp) { size_t q = 0; while (q < got.size() && q < exp.size() && got[q] == exp[q]) q++; violate("model", "SerializeFit:bytes", "output differs from the reference writer at offset " + std::to_string(q) + " (got " + std::to_string(got.size()) + " bytes, expected " + std::to_string(exp.size()) + ")"); }
+        for (auto& b : bufs) b.free();
+        probe(cap0 >= (1u << 20) ? "c09_growth_boundary_at_1MiB_and_more" : "c09_growth_boundary_small");
+        h = mix64(h ^ fnv1a(got.data(), got.size()));
       }
       out.ops_executed++;
       out.op_hashes.push_back(h);
@@ -180,6 +227,10 @@ static void gen_c09(uint64_t seed, uint64_t run, const std::string& tier, Plan& 
   { p.ops.emplace_back(); Op& op = p.ops.back(); op.kind = "Quote"; op.a = {(int64_t)n, -1, (int64_t)(r.next() >> 1), -1}; }
   if (n && n <= 70) { p.ops.emplace_back(); Op& op = p.ops.back(); op.kind = "Quote"; op.a = {(int64_t)n, -1, (int64_t)(r.next() >> 1), (int64_t)((run / (tier == "thorough" ? 321 : 161)) % n)}; }
   for (int k = 0; k < 2; k++) { p.ops.emplace_back(); Op& op = p.ops.back(); op.kind = "SerializeStr"; op.a = {(int64_t)r.below(16), (int64_t)(r.next() >> 1), (int64_t)r.below(4), (int64_t)r.below(64)}; }
+  if (r.chance(1, 6)) {   // write-buffer growth boundaries: small scales often, 1 MiB and more rarely (megabytes of output)
+    p.ops.emplace_back(); Op& op = p.ops.back(); op.kind = "SerializeFit";
+    op.a = {(int64_t)(r.chance(1, 12) ? 6 + r.below(4) : r.below(6)), (int64_t)r.below(3), (int64_t)r.below(3), (int64_t)r.below(97), (int64_t)r.below(17)};
+  }
 }
 
 // ------------------------------------------------------------------ C14
@@ -363,7 +414,7 @@ static void gen_c14(uint64_t seed, uint64_t run, const std::string& tier, Plan& 
 }
 
 static const Profile kC09 = {"C09", gen_c09, exec_c09,
-  "enumeration: run i takes string length n = i mod 161; for EVERY distance 0..70 (+96,128,200,1000,3000) between the end of the string and a PROT_NONE page, source placed accordingly and destination of exactly 6n+32+3 bytes ending at a guard page, each kernel available in the flavour (static; in the dispatch build also the sse and avx2 clones directly) is run with benign and hostile trailing bytes; contents are seeded (6 byte-class mixes; for n<=70 one special byte walking over every position); plus Serialize of string arrays into tight buffers. evaluations = runs; reach probe c09_quote_calls counts kernel executions; non-trivial = >=1 guarded placement fired; distinct = hash(op list, output digest)"};
+  "enumeration: run i takes string length n = i mod 161; for EVERY distance 0..70 (+96,128,200,1000,3000) between the end of the string and a PROT_NONE page, source placed accordingly and destination of exactly 6n+32+3 bytes ending at a guard page, each kernel available in the flavour (static; in the dispatch build also the sse and avx2 clones directly) is run with benign and hostile trailing bytes; contents are seeded (6 byte-class mixes; for n<=70 one special byte walking over every position); plus Serialize of string arrays into tight buffers, and (one run in six) a string of control bytes whose 6n+35 reservation ends within 48 bytes of cap, 1.5 cap or 2 cap of a write buffer of 64 bytes .. 5 MiB filled to 0/50/90 %. evaluations = runs; reach probe c09_quote_calls counts kernel executions; non-trivial = >=1 guarded placement fired; distinct = hash(op list, output digest)"};
 static const Profile kC14 = {"C14", gen_c14, exec_c14,
   "enumeration: run i takes length n = i mod 131 (one run in five 131..1330 and one in eighty up to 9300, with a mismatch in every 16-byte window); both operands at distances 0..40 (+64,500) from a PROT_NONE page (all pairs near the page, every third pair in the interior), mismatch at none/first/last/vector-boundary/random positions, bytes after the operands equal or different, each kernel of the flavour (dispatch build: sse and avx2 clones) judged against memcmp, plus API lookups (FindMember both overloads, HasMember, with and without map) on objects whose key bytes and probe keys end at guard pages. evaluations = runs; reach probe c14_compare_calls counts comparisons; distinct = hash(op list)"};
 static ProfileReg r09(&kC09), r14(&kC14);
